@@ -80,8 +80,13 @@ func randomRun(cfg config, idx int) (events []map[string]any, ncalls int, err er
 
 	keys := []string{"ka", "kb"}
 	cmdsOf := []string{"g"}
-	if cfg.flavor == "str" && rng.Intn(3) == 0 {
-		cmdsOf = []string{"g", "h"}
+	if cfg.flavor == "str" { // several cacheable commands per key (one purge must remove all of them)
+		switch rng.Intn(3) {
+		case 0:
+			cmdsOf = []string{"g", "h"}
+		case 1:
+			cmdsOf = []string{"g", "h", "i"}
+		}
 	}
 	ncallers := 2 + rng.Intn(2)
 	nops := 2
@@ -108,7 +113,11 @@ func randomRun(cfg config, idx int) (events []map[string]any, ncalls int, err er
 					atomic.StoreInt32(&w.failNext, int32(1+rg.Intn(2)))
 				}
 				w.logEv("Call", "c", c, "gen", gen, "kind", op.Kind, "ids", idsJSON(op.Ids))
-				if rg.Intn(4) == 0 { // the context ends after a short random delay
+				// (not in a run with a cut: the callers that find the wire broken share ONE dial, made with the context of
+				// the first of them -- mux._pipe: wireFn(ctx) --, and when that context ends during the dial all of them
+				// fail with its context error although their own contexts are alive.  That is the connection layer's
+				// business, not this model's: a Ret with err:ctx of a caller nobody cancelled would be rejected.)
+				if !doCut && rg.Intn(4) == 0 { // the context ends after a short random delay
 					d := time.Duration(rg.Intn(1500)) * time.Microsecond
 					cw.Add(1)
 					go func() {
